@@ -149,8 +149,15 @@ class G(object):
         return {"mk": kind, "items": list(items), "slot": self.slot()}
 
     # ---- calendar dates
+    # years where calendar / time-scale tables have edges
+    EDGE_YEARS = [1582, 1583, 1971, 1972, 1973, 1999, 2000, 2016, 2016, 2017, 2017, 2018, 1, 0, -1]
+
     def ymd(self, y0, y1, frac=True):
         y = self.rng.randint(int(y0), int(y1))
+        if self.rng.random() < 0.12:
+            c = [x for x in self.EDGE_YEARS if y0 <= x <= y1]
+            if c:
+                y = self.rng.choice(c)
         m = self.rng.randint(1, 12)
         d = self.rng.randint(1, 28)
         if y == 1582 and m == 10:
